@@ -43,7 +43,8 @@ class C13(conncheck.ConnCheck):
     title = 'Abandoning the event loop at any event releases the socket'
     technique = ('explicit-state exploration of server-step histories (engine A, canonical-state caching) with abandonment of the '
                  'iterator at every event index by each of four mechanisms (break, exception in handler, generator.close(), '
-                 'exception leaving a with-block); after gc the simulated descriptor must be closed or unreachable and the selector closed')
+                 'exception leaving a with-block, reconnect-then-close); after gc the simulated descriptor must be closed or unreachable and the selector '
+                 'closed; plus engine B schedules (preemption-bounded) of abandonment racing another thread that is inside a send')
     assumptions = [
         '"released" = close() was called on the descriptor, or the socket object is unreachable after gc.collect() while the application still holds the WebSocket (CPython closes an unreachable socket)',
         'break / exception mechanisms rely on CPython finalising the dropped generator immediately (reference counting)',
@@ -53,7 +54,7 @@ class C13(conncheck.ConnCheck):
     # 'reconnect+close': the application calls connect() again on the same object, then closes the old iterator
     expect_sites = ('abandon@connecting', 'abandon@connected', 'abandon@ready', 'abandon@poll/inner', 'abandon@poll/outer',
                     'abandon@text', 'abandon@ping', 'abandon@closing', 'abandon@closed', 'abandon@protocol_error',
-                    'abandon@rejected', 'abandon@disconnected', 'abandon@connect_fail', 'abandon@unresponsive', 'tls')
+                    'abandon@rejected', 'abandon@disconnected', 'abandon@connect_fail', 'abandon@unresponsive', 'tls', 'abandon-while-sending')
 
     def rule(self, tier):
         return ('server alphabet %s + handshake variants, %s; at every event index each of %s. '
@@ -82,6 +83,50 @@ class C13(conncheck.ConnCheck):
         out.append({'name': 'tls', 'server': SERVER, 'handshake': ['hs-ok'], 'depth': 3, 'url': 'wss://example.com/x'})
         out.append({'name': 'connect-fail', 'server': ['eof'], 'handshake': ['hs-ok'], 'depth': 1, 'refuse': True})
         return out
+
+    THREAD_HARNESSES = {
+        'T1': {'threads': [[('send_text', 'x' * 40)]], 'closer': 'gen.close'},
+        'T2': {'threads': [[('send_binary', b'y' * 40)]], 'closer': 'with-exit'},
+        'T3': {'threads': [[('send_text', 'a'), ('send_text', 'b')], [('send_ping', b'p')]], 'closer': 'gen.close'},
+    }
+
+    def jobs(self, tier, seed):
+        jobs = super(C13, self).jobs(tier, seed)
+        from .. import sched as S, thr
+        for h in sorted(self.THREAD_HARNESSES):
+            bound = 2 if tier == 'thorough' else 1
+            items = S.plan(thr.make_runner(dict(self.THREAD_HARNESSES[h], name=h)), bound, target=64)
+            for k in range(4):
+                chunk = items[k::4]
+                if chunk:
+                    jobs.append({'threads': h, 'bound': bound, 'items': [[p, u, m] for (p, u, m) in chunk]})
+        return jobs
+
+    def run_thread_job(self, job):
+        from .. import framework as F, sched as S, thr
+        res = F.JobResult()
+        h = job['threads']
+        run_one = thr.make_runner(dict(self.THREAD_HARNESSES[h], name=h))
+        res.covered.add('abandon-while-sending')
+
+        def on_exec(ex):
+            res.executions += 1
+            res.n_transitions += len(ex.sched.points)
+            for k in ex.sched.state_keys:
+                res.states.add(F.hs((h, k)))
+            res.outcomes[repr((h, ex.released, tuple(r[1] for t in sorted(ex.sched.results) for r in ex.sched.results[t])))] += 1
+            case = {'threads': h, 'choices': list(ex.sched.taken)}
+            if ex.sched.deadlock:
+                res.violate('C13:deadlock:%s' % h, 'threads %r blocked for ever while abandoning' % (ex.sched.deadlock,), case)
+            for tid, err in ex.sched.errors.items():
+                res.violate('C13:thread-exception:%s' % h, 'thread %d died with %r' % (tid, err), case)
+            if not ex.released:
+                res.violate('C13:socket-leak:while-sending:%s' % h, 'iterator abandoned (%s) while another thread was inside a send: socket neither closed '
+                            'nor unreachable [schedule with %d preemption(s)]' % (self.THREAD_HARNESSES[h]['closer'], ex.sched.preemptions()), case)
+            if not ex.selectors_closed:
+                res.violate('C13:selector-leak:while-sending:%s' % h, 'selector left open', case)
+        S.explore_items(run_one, job['bound'], [tuple(i) for i in job['items']], on_exec)
+        return res
 
     def one_run(self, cfg, ch, ex):
         model = self.make_model(ex, cfg)
@@ -144,6 +189,8 @@ class C13(conncheck.ConnCheck):
         return 'C13:%s' % kind
 
     def run_job(self, job):
+        if 'threads' in job:
+            return self.run_thread_job(job)
         cfg = dict(job['cfg'])
         cfg.setdefault('max_dev', 1)
         job = {'cfg': cfg}
@@ -173,6 +220,14 @@ class C13(conncheck.ConnCheck):
 
     def replay(self, case, verbose=True):
         from .. import explore, framework as F
+        if 'threads' in case:
+            from .. import thr
+            h = case['threads']
+            ex = thr.make_runner(dict(self.THREAD_HARNESSES[h], name=h))(case['choices'])
+            if verbose:
+                print('harness', h, self.THREAD_HARNESSES[h], 'schedule', ''.join(str(t) for t in ex.sched.order))
+                print('released:', ex.released, 'socket calls:', [(c[1], c[2]) for c in ex.world.calls if c[2] in ('close', 'shutdown')])
+            return [] if ex.released else [F.Violation('C13:socket-leak:while-sending:%s' % h, 'socket left open', case)]
         ch = explore.Chooser(case['choices'])
         model, run = self.one_run(case['cfg'], ch, None)
         if verbose:
